@@ -45,11 +45,11 @@ type connObs struct {
 }
 
 type board struct {
-	mu   sync.Mutex
-	cond *sync.Cond
-	t0   time.Time
-	obs  map[int]*connObs
-	serveReturned        bool
+	mu                    sync.Mutex
+	cond                  *sync.Cond
+	t0                    time.Time
+	obs                   map[int]*connObs
+	serveReturned         bool
 	handlersAtServeReturn int // handlers still running when StreamServe returned
 	running               int
 	panics                int
@@ -120,7 +120,9 @@ func (m *recMetrics) AddClosed(status string, d metrics.ProxyMetrics, _ time.Dur
 	})
 }
 func (m *recMetrics) AddProbe(status, drainResult string, n int64) {
-	m.b.update(m.c, func(o *connObs) { o.mlog = append(o.mlog, mrec{M: "Probe", S: status, N: []int64{n}, Drain: drainResult}) })
+	m.b.update(m.c, func(o *connObs) {
+		o.mlog = append(o.mlog, mrec{M: "Probe", S: status, N: []int64{n}, Drain: drainResult})
+	})
 }
 
 // ---- stream chopper: cuts an incoming byte stream into the pieces the peer is known to have written -------------
